@@ -21,6 +21,8 @@ ERRS = [
     ("bad-index", "lda 0x10,q", 9, "scan"),
     ("unterminated-string", ".ascii 'abc", 7, "scan"),
     ("bad-size-indented", "    sta.z 0x10", 8, "scan"),
+    ("unterminated-comment", "/* never closed", 0, "scan"),
+    ("unterminated-comment-indented", "   /* never closed", 3, "scan"),
     # an unterminated string that ends in a backslash, followed by a line that holds a quoted string
     ("unterminated-string-backslash", ".ascii 'C:\\", 7, "scan"),
 ]
